@@ -58,3 +58,7 @@ if "panics" in which:
             return "Modelled: LPanic in Model/Loader.v act; unreachable by the invariant block.is_some() -> function.is_some() and the preceding if_ret_err! checks"
         return "UNREVIEWED"
     dump("panic_audit.json", [{"site": p["site"], "count": p["count"], "disposition": disp(p["site"])} for p in facts["panics"]])
+
+if "disas" in which:
+    d = facts["disas"]
+    dump("disas.json", {"masks": d["masks"], "display": d["display"]})
